@@ -14,6 +14,7 @@ import (
 	"strings"
 
 	"github.com/Oneledger/protocol/action"
+	govact "github.com/Oneledger/protocol/action/governance"
 	"github.com/Oneledger/protocol/data/governance"
 	"github.com/Oneledger/protocol/data/keys"
 	"github.com/Oneledger/protocol/serialize"
@@ -89,6 +90,11 @@ func newLab(nodeSeed byte) *lab {
 	bn := 0
 	bm := func() string { bn++; return fmt.Sprintf("labbid%d", bn) }
 	bidOwner, bidA, bidB, bidC := u2, u3, u1, u0
+	// set-up for PROPOSAL_WITHDRAW_FUNDS (a cancelled proposal that holds funds) and PROPOSAL_FINALIZE (a
+	// proposal that passes in the LAST set-up block, so that the next block is the one that finalises it)
+	gn := 0
+	gm := func() string { gn++; return fmt.Sprintf("labgov%d", gn) }
+	u4 := w.Users[4]
 	olt5, olt9 := oltAmt("5000000000000000000"), oltAmt("9000000000000000000")
 	blk()
 	blk()
@@ -100,7 +106,9 @@ func newLab(nodeSeed byte) *lab {
 		txDelegate(u1, oltAmt("250000000000000000"), l.memo()),
 		txStake(e0, oltAmt("500000"), l.memo()),
 		txDomainCreate(bidOwner, "bidlab.ol", oltAmt("1002000000000000000000"), bm()),
-		txDomainCreate(bidOwner, "bidnew.ol", oltAmt("1002000000000000000000"), bm()))
+		txDomainCreate(bidOwner, "bidnew.ol", oltAmt("1002000000000000000000"), bm()),
+		txPropCreate(u4, "lab_fin", governance.ProposalTypeGeneral, oltAmt("1000000000"), 60, 0, gm()),
+		txPropCreate(u4, "lab_wd", governance.ProposalTypeGeneral, oltAmt("1000000000"), 60, 0, gm()))
 	// three conversations about bidlab.ol, created at height 4: A keeps its bid offer, B gets a counter
 	// offer at height 5, C is the one the expire kind names
 	convA, convB, convC := bidConvID(bidOwner.Addr, "bidlab.ol", bidA.Addr, 4), bidConvID(bidOwner.Addr, "bidlab.ol", bidB.Addr, 4), bidConvID(bidOwner.Addr, "bidlab.ol", bidC.Addr, 4)
@@ -111,7 +119,9 @@ func newLab(nodeSeed byte) *lab {
 		txDomainCreate(u0, "sub.lab.ol", oltAmt("1002000000000000000000"), l.memo()),
 		txBidCreate(bidA, bidOwner.Addr, "bidlab.ol", bidOns, olt5, bidFar, bm()),
 		txBidCreate(bidB, bidOwner.Addr, "bidlab.ol", bidOns, olt5, bidFar, bm()),
-		txBidCreate(bidC, bidOwner.Addr, "bidlab.ol", bidOns, olt5, bidFar, bm()))
+		txBidCreate(bidC, bidOwner.Addr, "bidlab.ol", bidOns, olt5, bidFar, bm()),
+		txPropFund(u4, "lab_fin", oltAmt("9000000000"), gm()),
+		txPropCancel(u4, "lab_wd", gm()))
 	blk(txAllegation(v0, "labreq", v2.Val.Addr, 5, l.memo()),
 		txBidCounter(bidOwner, convB, olt9, bm()))
 	blk()
@@ -119,7 +129,9 @@ func newLab(nodeSeed byte) *lab {
 	// a conversation whose deadline passes between this (the last set-up) block and the next one: the
 	// block after the set-up queues its expiry at BeginBlock and executes it at EndBlock
 	convD := bidConvID(bidOwner.Addr, "bidnew.ol", bidB.Addr, 8)
-	blk(txBidCreate(bidB, bidOwner.Addr, "bidnew.ol", bidOns, olt5, bidBlockTime(8)+7, bm()))
+	blk(txBidCreate(bidB, bidOwner.Addr, "bidnew.ol", bidOns, olt5, bidBlockTime(8)+7, bm()),
+		txPropVote(v0, "lab_fin", governance.OPIN_POSITIVE, gm()),
+		txPropVote(v1, "lab_fin", governance.OPIN_POSITIVE, gm()))
 	k := func(name string, victim Key, signers []Key, build func(memo string) []byte) {
 		l.Kinds = append(l.Kinds, labKind{Name: name, Build: build, Signers: signers, Victim: victim})
 	}
@@ -144,6 +156,10 @@ func newLab(nodeSeed byte) *lab {
 	k("PROPOSAL_VOTE", v0.Stake, []Key{v0.Stake, v0.Val}, func(m string) []byte { return txPropVote(v0, "lab_vote", governance.OPIN_NEGATIVE, m) })
 	k("PROPOSAL_CANCEL", u2, one(u2), func(m string) []byte { return txPropCancel(u2, "lab_cancel", m) })
 	k("EXPIRE_VOTES", u3, one(u3), func(m string) []byte { return txExpireVotes(u3, "lab_vote", m) })
+	k("PROPOSAL_WITHDRAW_FUNDS", u4, one(u4), func(m string) []byte { return txPropWithdraw(u4, "lab_wd", oltAmt("1000"), u4.Addr, m) })
+	k("PROPOSAL_FINALIZE", v0.Val, one(v0.Val), func(m string) []byte {
+		return mkTx(action.PROPOSAL_FINALIZE, govact.FinalizeProposal{ProposalID: propID("lab_fin"), ValidatorAddress: v0.Val.Addr}, GAS, m, v0.Val)
+	})
 	k("DOMAIN_CREATE", u3, one(u3), func(m string) []byte { return txDomainCreate(u3, "labnew.ol", oltAmt("1002000000000000000000"), m) })
 	k("DOMAIN_UPDATE", u0, one(u0), func(m string) []byte { return txDomainUpdate(u0, "lab.ol", u2.Addr, true, m) })
 	k("DOMAIN_SELL", u0, one(u0), func(m string) []byte { return txDomainSell(u0, "lab.ol", oltAmt("5000000000000000000"), false, m) })
